@@ -11,8 +11,10 @@ import (
 
 	sdkmath "cosmossdk.io/math"
 	sdk "github.com/cosmos/cosmos-sdk/types"
+	govv1 "github.com/cosmos/cosmos-sdk/x/gov/types/v1"
 
 	crosschaintypes "github.com/functionx/fx-core/v8/x/crosschain/types"
+	fxgovtypes "github.com/functionx/fx-core/v8/x/gov/types"
 
 	"verif/harness/chain"
 	"verif/harness/core"
@@ -175,8 +177,20 @@ func c17Churn(spec c17Spec, note func(string)) {
 				c.Msg(&crosschaintypes.MsgAddDelegate{ChainName: "eth", OracleAddress: b.Oracles[i].Oracle.Bech32(), Amount: chain.FXCoin(int64(1 + rng.IntN(10)))})
 			}
 		}
+		if step%4 == 1 {
+			// a proposal that passes and then fails when it is executed (a raw store update whose stated old
+			// value is stale): its failure text is stored with the proposal and emitted in the end-block events
+			gp, _ := c.App.GovKeeper.Params.Get(c.Ctx)
+			msg := &fxgovtypes.MsgUpdateStore{Authority: chain.GovAuthority(), UpdateStores: []fxgovtypes.UpdateStore{{Space: "eth", Key: "24", OldValue: "ff", Value: "0000000000000001"}}}
+			if id, pr := fix.Propose(c, c.Users[2], []sdk.Msg{msg}, gp.MinDeposit, "stale store update"); pr.OK() {
+				for _, v := range c.Vals {
+					fix.GovVote(c, v.Operator, id, govv1.OptionYes)
+				}
+				note(fmt.Sprintf("step %d: proposal %d submitted", step, id))
+			}
+		}
 		if step%4 == 3 {
-			c.EndBlock(22 * 24 * time.Hour) // unbonding queues mature
+			c.EndBlock(22 * 24 * time.Hour) // unbonding queues mature, voting periods end
 		}
 		c.Next()
 	}
